@@ -3433,7 +3433,8 @@ where
         if crate::verif::fail::hit("insert.attempt.entry") {
             return Err(InsertionError::TopologyValidation(
                 TdsValidationError::InconsistentDataStructure {
-                    message: "verif: injected retryable failure at insert.attempt.entry".to_string(),
+                    message: "verif: injected retryable failure at insert.attempt.entry"
+                        .to_string(),
                 },
             ));
         }
@@ -3835,11 +3836,13 @@ where
             && !conflict_cells.is_empty()
             && crate::verif::fail::hit("insert.outside.cavity_degenerate")
         {
-            return Err(InsertionError::ConflictRegion(ConflictError::OpenBoundary {
-                facet_count: 1,
-                ridge_vertex_count: D.saturating_sub(1),
-                open_cell: conflict_cells[0],
-            }));
+            return Err(InsertionError::ConflictRegion(
+                ConflictError::OpenBoundary {
+                    facet_count: 1,
+                    ridge_vertex_count: D.saturating_sub(1),
+                    open_cell: conflict_cells[0],
+                },
+            ));
         }
         if conflict_cells.is_empty() {
             let Some(start_cell) = fallback_cell else {
@@ -4073,7 +4076,8 @@ where
         if crate::verif::fail::hit("insert.cavity.filled.retry") {
             return Err(InsertionError::TopologyValidation(
                 TdsValidationError::InconsistentDataStructure {
-                    message: "verif: injected retryable failure at insert.cavity.filled".to_string(),
+                    message: "verif: injected retryable failure at insert.cavity.filled"
+                        .to_string(),
                 },
             ));
         }
@@ -4102,7 +4106,8 @@ where
         #[cfg(delaunay_verif)]
         if crate::verif::fail::hit("insert.cavity.wired.retry") {
             return Err(InsertionError::NeighborWiring {
-                message: "Non-manifold topology (verif: injected at insert.cavity.wired)".to_string(),
+                message: "Non-manifold topology (verif: injected at insert.cavity.wired)"
+                    .to_string(),
             });
         }
         #[cfg(delaunay_verif)]
@@ -4118,7 +4123,8 @@ where
         if crate::verif::fail::hit("insert.cavity.removed.retry") {
             return Err(InsertionError::TopologyValidation(
                 TdsValidationError::InconsistentDataStructure {
-                    message: "verif: injected retryable failure at insert.cavity.removed".to_string(),
+                    message: "verif: injected retryable failure at insert.cavity.removed"
+                        .to_string(),
                 },
             ));
         }
@@ -4143,7 +4149,10 @@ where
             {
                 crate::verif::tick::tick("insert.facet_repair_iter");
                 if iteration
-                    >= crate::verif::knob::get("insert.max_repair_iterations", MAX_REPAIR_ITERATIONS)
+                    >= crate::verif::knob::get(
+                        "insert.max_repair_iterations",
+                        MAX_REPAIR_ITERATIONS,
+                    )
                 {
                     break;
                 }
@@ -4258,7 +4267,8 @@ where
         if crate::verif::fail::hit("insert.cavity.normalized.retry") {
             return Err(InsertionError::TopologyValidation(
                 TdsValidationError::InconsistentDataStructure {
-                    message: "verif: injected retryable failure at insert.cavity.normalized".to_string(),
+                    message: "verif: injected retryable failure at insert.cavity.normalized"
+                        .to_string(),
                 },
             ));
         }
@@ -4320,7 +4330,8 @@ where
         if crate::verif::fail::hit("insert.cavity.connected.retry") {
             return Err(InsertionError::TopologyValidation(
                 TdsValidationError::InconsistentDataStructure {
-                    message: "verif: injected retryable failure at insert.cavity.connected".to_string(),
+                    message: "verif: injected retryable failure at insert.cavity.connected"
+                        .to_string(),
                 },
             ));
         }
@@ -4406,16 +4417,18 @@ where
             #[cfg(delaunay_verif)]
             if crate::verif::fail::hit("insert.bootstrap_simplex.retry") {
                 return Err(InsertionError::TopologyValidation(
-                TdsValidationError::InconsistentDataStructure {
-                    message: "verif: injected retryable failure at insert.bootstrap_simplex".to_string(),
-                },
-            ));
+                    TdsValidationError::InconsistentDataStructure {
+                        message: "verif: injected retryable failure at insert.bootstrap_simplex"
+                            .to_string(),
+                    },
+                ));
             }
             #[cfg(delaunay_verif)]
             if crate::verif::fail::hit("insert.bootstrap_simplex.fatal") {
                 return Err(InsertionError::CavityFilling {
-                message: "verif: injected fatal failure at insert.bootstrap_simplex".to_string(),
-            });
+                    message: "verif: injected fatal failure at insert.bootstrap_simplex"
+                        .to_string(),
+                });
             }
 
             // Re-map vertex key to the rebuilt TDS
@@ -4751,16 +4764,18 @@ where
                 #[cfg(delaunay_verif)]
                 if crate::verif::fail::hit("insert.hull.extended.retry") {
                     return Err(InsertionError::TopologyValidation(
-                TdsValidationError::InconsistentDataStructure {
-                    message: "verif: injected retryable failure at insert.hull.extended".to_string(),
-                },
-            ));
+                        TdsValidationError::InconsistentDataStructure {
+                            message: "verif: injected retryable failure at insert.hull.extended"
+                                .to_string(),
+                        },
+                    ));
                 }
                 #[cfg(delaunay_verif)]
                 if crate::verif::fail::hit("insert.hull.extended.fatal") {
                     return Err(InsertionError::CavityFilling {
-                message: "verif: injected fatal failure at insert.hull.extended".to_string(),
-            });
+                        message: "verif: injected fatal failure at insert.hull.extended"
+                            .to_string(),
+                    });
                 }
                 self.canonicalize_positive_orientation_for_cells(&new_cells)?;
                 #[cfg(debug_assertions)]
@@ -4961,16 +4976,18 @@ where
                 #[cfg(delaunay_verif)]
                 if crate::verif::fail::hit("insert.hull.normalized.retry") {
                     return Err(InsertionError::TopologyValidation(
-                TdsValidationError::InconsistentDataStructure {
-                    message: "verif: injected retryable failure at insert.hull.normalized".to_string(),
-                },
-            ));
+                        TdsValidationError::InconsistentDataStructure {
+                            message: "verif: injected retryable failure at insert.hull.normalized"
+                                .to_string(),
+                        },
+                    ));
                 }
                 #[cfg(delaunay_verif)]
                 if crate::verif::fail::hit("insert.hull.normalized.fatal") {
                     return Err(InsertionError::CavityFilling {
-                message: "verif: injected fatal failure at insert.hull.normalized".to_string(),
-            });
+                        message: "verif: injected fatal failure at insert.hull.normalized"
+                            .to_string(),
+                    });
                 }
                 // Detect isolated vertices and treat as retryable degeneracy.
                 if self.tds.vertices().any(|(_, v)| v.incident_cell.is_none()) {
@@ -4988,16 +5005,18 @@ where
                 #[cfg(delaunay_verif)]
                 if crate::verif::fail::hit("insert.hull.connected.retry") {
                     return Err(InsertionError::TopologyValidation(
-                TdsValidationError::InconsistentDataStructure {
-                    message: "verif: injected retryable failure at insert.hull.connected".to_string(),
-                },
-            ));
+                        TdsValidationError::InconsistentDataStructure {
+                            message: "verif: injected retryable failure at insert.hull.connected"
+                                .to_string(),
+                        },
+                    ));
                 }
                 #[cfg(delaunay_verif)]
                 if crate::verif::fail::hit("insert.hull.connected.fatal") {
                     return Err(InsertionError::CavityFilling {
-                message: "verif: injected fatal failure at insert.hull.connected".to_string(),
-            });
+                        message: "verif: injected fatal failure at insert.hull.connected"
+                            .to_string(),
+                    });
                 }
                 self.validate_connectedness(&new_cells)?;
 
